@@ -54,6 +54,17 @@ Theorem C03_rule_call :
 Proof. exact rule_call. Qed.
 Print Assumptions C03_rule_call.
 
+(* calls with by-reference arguments: additionally, an argument is passed by reference exactly where the parameter is a mutable
+   reference, such an argument is a variable, every argument has the type the parameter has inside the callee, and no variable
+   is passed by reference twice in one call *)
+Theorem C03_rule_call_by_reference :
+  forall structs sigs G f args t, check_expr structs sigs G (ECallR f args) = TOk t ->
+    exists pts, nth_error sigs f = Some (pts, t) /\ length args = length pts /\ distinct_refs args = true /\
+                Forall2 (fun a pt => fst a = is_ref pt /\ (fst a = true -> exists x, snd a = EVar x) /\
+                                     check_expr structs sigs G (snd a) = TOk (pty_in pt)) args pts.
+Proof. exact rule_callr. Qed.
+Print Assumptions C03_rule_call_by_reference.
+
 (* names: used names are declared, a name is not declared twice in one scope; initialisers and assignments
    have exactly the declared type (no implicit narrowing); literals fit their type *)
 Theorem C03_rule_names_and_assignment :
@@ -91,3 +102,18 @@ Definition sample : prog :=
 Theorem C03_nonvacuous : check_prog [[I32; U8]] sample = TOk tt.
 Proof. vm_compute. reflexivity. Qed.
 Print Assumptions C03_nonvacuous.
+
+(* ... and one with a by-reference call; passing the same variable twice by reference, or a by-value argument where the
+   parameter is a reference, is rejected *)
+Definition sample_ref (args : list (bool * expr)) : prog :=
+  [ {| fparams := [(0, TMutRef 0); (1, TMutRef 0)]; fret := TVoid; fbody := SAssignField 0 0 (EField (EVar 1) 0) |};
+    {| fparams := []; fret := TVoid;
+       fbody := SSeq (SLet 1 (TStruct 0) (EStructLit 0 [ELit I32 1%Z; ELit U8 2%Z]))
+               (SSeq (SLet 2 (TStruct 0) (EVar 1))
+               (SSeq (SExpr (ECallR 0 args)) (SPrint [EField (EVar 1) 0]))) |} ].
+Theorem C03_nonvacuous_by_reference :
+  check_prog [[I32; U8]] (sample_ref [(true, EVar 1); (true, EVar 2)]) = TOk tt /\
+  check_prog [[I32; U8]] (sample_ref [(true, EVar 1); (true, EVar 1)]) = TErr EArgType /\
+  check_prog [[I32; U8]] (sample_ref [(true, EVar 1); (false, EVar 2)]) = TErr EArgType.
+Proof. vm_compute. repeat split. Qed.
+Print Assumptions C03_nonvacuous_by_reference.
